@@ -172,6 +172,66 @@ pub fn run(ctx: &mut Ctx) {
         }
     }
 
+    // ---- ids at binary block boundaries: every power of two below 10^7 with its two neighbours, every multiple
+    // of 2^16 up to 2^20 and of 2^20 up to 10^7 - a lookup table that is paged, grown or narrowed has its seams here
+    {
+        let mut special: Vec<u32> = vec![];
+        for k in 0..24u32 {
+            let p = 1u32 << k;
+            for v in [p.wrapping_sub(1), p, p + 1] {
+                if v < MAX_ID {
+                    special.push(v);
+                }
+            }
+        }
+        for j in 1..=16u32 {
+            special.push(j << 16);
+        }
+        for j in 1..=9u32 {
+            special.extend([(j << 20) - 1, j << 20, (j << 20) + 1]);
+        }
+        special.sort_unstable();
+        special.dedup();
+        let singles: Vec<Vec<u32>> = (1..=9u32).map(|j| vec![j << 20]).chain((16..24u32).map(|k| vec![1u32 << k])).collect();
+        ctx.space("terms/block-boundary-ids", &format!("one ontology over {} ids (2^k-1, 2^k, 2^k+1 for k < 24; j*2^16 for j <= 16; j*2^20-1, j*2^20, j*2^20+1 for j <= 9) in ascending, descending and rotated insertion order, and {} ontologies holding a single such id: hpo(id) for every listed id +-2, the border keys, iteration, len", special.len(), singles.len()));
+        let n = special.len();
+        let mut id_sets: Vec<(Vec<u32>, &str)> = vec![(special.clone(), "ascending"), (special.iter().rev().copied().collect(), "descending"), ((0..n).map(|i| special[(i + n / 2) % n]).collect(), "rotated by half")];
+        for one in &singles {
+            id_sets.push((one.clone(), "single id"));
+        }
+        let mut keys: Vec<u32> = vec![];
+        for v in &special {
+            for d in -2i64..=2 {
+                let k = *v as i64 + d;
+                if k >= 0 {
+                    keys.push(k as u32);
+                }
+            }
+        }
+        keys.extend(borders.iter().copied());
+        for (ids, order) in &id_sets {
+            if !ctx.take() {
+                continue;
+            }
+            ctx.state();
+            ctx.nontrivial();
+            let seq: Vec<(u32, String)> = ids.iter().map(|i| (*i, format!("T{i}"))).collect();
+            let (f, added) = term_facts(&seq);
+            ctx.transitions(f.n_steps() + keys.len() as u64);
+            ctx.execs(keys.len() as u64);
+            ctx.validateds(keys.len() as u64);
+            match drive::build(&f, Mode::Minimal) {
+                Err(e) => ctx.violation("Builder::new_term", "construction fails", json!({"term_ids_added": ids, "insertion_order": order, "observed": e})),
+                Ok(ont) => match guard(|| check_keys(&ont, &added, keys.iter().copied()).or_else(|| check_iteration(&ont, &added))) {
+                    Ok(None) => {}
+                    Ok(Some((site, sig, det))) => ctx.violation(&site, &sig, json!({"term_ids_added": ids, "insertion_order": order, "difference": det})),
+                    Err(p) => ctx.violation("Ontology::hpo", "panics", json!({"term_ids_added": ids, "insertion_order": order, "observed": p})),
+                },
+            }
+            ctx.sample(|| json!({"ids": ids.len(), "insertion_order": order, "keys": keys.len()}));
+        }
+    }
+
     // ---- ontologies built by the binary decoder and the text loader (names incl. the empty one, every record order)
     {
         let family = crate::props::common::format_family(4, if thorough { 1 } else { 8 });
@@ -222,10 +282,17 @@ pub fn run(ctx: &mut Ctx) {
                     ctx.transitions(tf.n_steps() + keys.len() as u64);
                     ctx.exec();
                     ctx.validated();
-                    match crate::jax::load(&crate::jax::render(&tf, &crate::jax::JaxOpts::default()), false) {
+                    // stanza layouts alternate: plain, extra tags, tags (and the flags) between id and name
+                    let mut jo = crate::jax::JaxOpts::default();
+                    match (p[0] + p[n - 1]) % 3 {
+                        1 => jo.distractors = vec![crate::jax::Distractor::ExtraTags],
+                        2 => jo.distractors = vec![crate::jax::Distractor::TagsBeforeName],
+                        _ => {}
+                    }
+                    match crate::jax::load(&crate::jax::render(&tf, &jo), false) {
                         Ok(Ok(ont)) => match guard(|| check_keys(&ont, &tadded, keys.iter().copied()).or_else(|| check_iteration(&ont, &tadded))) {
                             Ok(None) => {}
-                            Ok(Some((site, sig, det))) => ctx.violation(&site, &format!("[loaded from hp.obo] {sig}"), json!({"family": what, "facts": tf.to_json(), "stanza_order": p, "difference": det})),
+                            Ok(Some((site, sig, det))) => ctx.violation(&site, &format!("[loaded from hp.obo] {sig}"), json!({"family": what, "facts": tf.to_json(), "stanza_order": p, "stanza_layout": format!("{:?}", jo.distractors), "difference": det})),
                             Err(pn) => ctx.violation("Ontology::hpo", "panics", json!({"family": what, "facts": tf.to_json(), "observed": pn})),
                         },
                         other => ctx.violation("Ontology::from_standard", "rejects valid JAX files", json!({"family": what, "facts": tf.to_json(), "observed": format!("{:?}", other.map(|r| r.map(|_| ())))})),
